@@ -8,6 +8,7 @@ from batches import cfi_entries
 
 TRUSTED = list(cfi_entries.TRUSTED) + ['UnwindContext', 'UnwindTableRow', 'unwind_info_for_address']
 VERUS_ARGS = ['--rlimit', '40']
+RETRY_RLIMIT = 120
 
 OWN = ['C01', 'C05']
 SPEC_TEXT = core.rd('specs/cfi_lookup.rs')
@@ -168,9 +169,11 @@ def section_lookups(ctx, sk):
                        f'[C05:fde-cie-binding] res matches Ok(f) ==> ' + cie_bound('f', SEC, OFF),
                        f'[C05:from-offset-oob] {OFF} > {SEC}.len ==> res is Err'])
     # every `Err(NoUnwindInfoForAddress)` of fde_for_address is reached only with the entries iterator exhausted
-    n_err = us.text.count('Err(Error::NoUnwindInfoForAddress)')
-    for k in range(n_err):
-        us.insert_before('Err(Error::NoUnwindInfoForAddress)', 'proof { assert(entries.inp().len == 0); } // [C05:lookup-exhaustive]\n', nth=k)
+    # (every occurrence in the method, wherever an edit puts one; as a statement before the `return` if there is one)
+    s, e = method_span(us.text, 'fde_for_address')
+    hits = [s + m.start() for m in re.finditer(r'(return\s+)?Err\(Error::NoUnwindInfoForAddress\)', us.text[s:e])]
+    for k in reversed(hits):
+        us.text = us.text[:k] + ins('proof { assert(entries.inp().len == 0); } // [C05:lookup-exhaustive]\n') + us.text[k:]
     FOFF = 'f.s_offset() as nat'
     us.splice('fde_for_address', ret='res', canary=True, requires=[ASZ_OK, GETCIE_OK],
               ensures=['[C05:lookup-contains] res matches Ok(f) ==> f.covers(address)',
